@@ -134,6 +134,26 @@ func (e *Encoder) writeValue(val reflect.Value, tagType byte) error {
 						data[i] = byte(val.Index(i).Int())
 					}
 				}
+			default: // interface-typed elements ([]any{int8(1), ...}): each one must hold a byte-sized value
+				data = make([]byte, n)
+				for i := range data {
+					elem := val.Index(i)
+					for elem.Kind() == reflect.Interface {
+						elem = elem.Elem()
+					}
+					switch elem.Kind() {
+					case reflect.Int8:
+						data[i] = byte(elem.Int())
+					case reflect.Uint8:
+						data[i] = byte(elem.Uint())
+					case reflect.Bool:
+						if elem.Bool() {
+							data[i] = 1
+						}
+					default:
+						return fmt.Errorf("nbt: element %d of a TAG_Byte_Array is not a byte-sized value", i)
+					}
+				}
 			}
 			_, err := e.w.Write(data)
 			return err
@@ -151,6 +171,9 @@ func (e *Encoder) writeValue(val reflect.Value, tagType byte) error {
 				case reflect.Uint, reflect.Uint8, reflect.Uint16, reflect.Uint32, reflect.Uint64:
 					v = int64(elem.Uint())
 				default:
+					if !elem.IsValid() { // a nil interface element
+						return fmt.Errorf("nbt: element %d of an array tag is nil", i)
+					}
 					return errors.New("value typed " + elem.Type().String() + "is not allowed in Tag 0x" + strconv.FormatUint(uint64(tagType), 16))
 				}
 				if tagType == TagIntArray {
